@@ -23,14 +23,18 @@ CONSTANTS MaxDepth,    \* bound on the number of Set/Unset operations
 VARIABLES emb, side, tmp, loaded, last, hist, lives
 vars == <<emb, side, tmp, loaded, last, hist, lives>>
 
-Ids == {1, 2, 3}
+Ids == {1, 2, 3}          \* repositories the operations address
+AllRepos == {1, 2, 3, 4}  \* repositories in the compound shard
 
 Doc(n, ws) == [name |-> n, words |-> ws]
 Entry(i, docs, ft) == [id |-> i, docs |-> docs, ft |-> ft, changed |-> <<>>]
 C17Corpus == <<[repos |-> <<
    Entry(1, <<Doc("fa.txt", <<"alpha", "kilo">>), Doc("fb.txt", <<"bravo", "kilo">>)>>, <<>>),
    Entry(2, <<Doc("fa.txt", <<"alpha", "lima">>), Doc("dc/fd.go", <<"alpha">>), Doc("fe.md", <<"gamma">>)>>, <<"fe.md">>),
-   Entry(3, <<Doc("fa.txt", <<"bravo", "delta">>), Doc("fg.c", <<"gamma">>)>>, <<>>)>>]>>
+   Entry(3, <<Doc("fa.txt", <<"bravo", "delta">>), Doc("fg.c", <<"gamma">>)>>, <<>>),
+   \* never operated on; all its paths are tombstoned: listed (when the query folds to TRUE)
+   \* but never found
+   Entry(4, <<Doc("fa.txt", <<"alpha", "bravo">>), Doc("fb.txt", <<"gamma">>)>>, <<"fa.txt", "fb.txt">>)>>]>>
 
 Q(k, w, s, c) == [k |-> k, w |-> w, s |-> s, c |-> c]
 C17Queries == <<
@@ -47,7 +51,8 @@ C17Queries == <<
    Q("or", "", <<>>, <<Q("ids", "", <<1>>, <<>>), Q("sub", "gamma", <<>>, <<>>)>>),
    Q("trepo", "", <<>>, <<Q("sub", "bravo", <<>>, <<>>)>>),
    Q("and", "", <<>>, <<Q("trepo", "", <<>>, <<Q("sub", "gamma", <<>>, <<>>)>>), Q("sub", "alpha", <<>>, <<>>)>>),
-   Q("repo", "", <<1, 2, 3>>, <<>>)>>
+   Q("repo", "", <<1, 2, 3, 4>>, <<>>),
+   Q("ids", "", <<1, 4>>, <<>>)>>
 
 Cx(t) == [D |-> C17Corpus, kind |-> "compound", tomb |-> <<t>>]
 
@@ -58,12 +63,8 @@ Ops == [op : {"set", "unset"}, id : Ids]
 Answers(t) == [i \in DOMAIN C17Queries |-> DirAnswer(C17Queries[i], Cx(t))]
 Lists(t)   == [i \in DOMAIN C17Queries |-> DirList(C17Queries[i], Cx(t))]
 
-SetToSeq(S) == LET RECURSIVE f(_)
-                   f(T) == IF T = {} THEN <<>> ELSE LET m == CHOOSE x \in T : \A y \in T : x <= y IN <<m>> \o f(T \ {m})
-               IN f(S)
-
 Table == [kind |-> "compound", shards |-> C17Corpus, queries |-> C17Queries,
-          answers |-> {[tomb |-> SetToSeq(t), live |-> SetToSeq(Ids \ t),
+          answers |-> {[tomb |-> SetToSeq(t), live |-> SetToSeq(AllRepos \ t),
                         files |-> Answers(t), repos |-> Lists(t)] : t \in SUBSET Ids}]
 
 ASSUME Mode \in {"seq", "fault"} => PrintT(<<"TABLE", ToJson(Table)>>)
@@ -74,7 +75,7 @@ Init == /\ emb = {} /\ side = [has |-> FALSE, t |-> {}] /\ tmp = 0 /\ loaded = {
 
 Record(o, fault) ==
   /\ hist' = Append(hist, [op |-> o.op, id |-> o.id, fault |-> fault])
-  /\ lives' = Append(lives, SetToSeq(Ids \ Eff'))
+  /\ lives' = Append(lives, SetToSeq(AllRepos \ Eff'))
 
 \* SetTombstone / UnsetTombstone succeed: metadata in force read, flag changed, temporary
 \* file written and renamed over the sidecar
@@ -150,7 +151,7 @@ Reversible == \A i \in Ids \ Eff :
 
 \* nothing of a tombstoned repository or a tombstoned path in any answer
 Hidden == \A i \in DOMAIN C17Queries :
-            /\ \A x \in Answers(Eff)[i] : x[1] \notin Eff /\ ~(x[1] = 2 /\ x[2] = "fe.md")
+            /\ \A x \in Answers(Eff)[i] : x[1] \notin Eff /\ x \notin {<<2, "fe.md">>, <<4, "fa.txt">>, <<4, "fb.txt">>}
             /\ Lists(Eff)[i] \cap Eff = {}
 
 \* the loaded view changes only by reloading and then equals what is on disk
